@@ -699,3 +699,136 @@ def c02_placeholder(kernel, data, nd1, nd2, special=None, robust=False, lc=0.7, 
             return {"violates": True, "why": "result depends on the placeholder", "y1": y1, "y2": y2, "nd": [a, b if sp is None else special],
                     "out1": o1, "out2": o2, "lopt": [l1, l2], "llas": g}
     return {"violates": False}
+
+
+# ------------------------------------------------------------------ C04
+def _vcurve(y, w, llas, p, warm):
+    fits, pens = [], []
+    z = np.zeros(len(y))
+    for l in llas:
+        lam = 10.0 ** l
+        if p is None:
+            z = _pls(y, w, lam)
+        else:
+            z, _ = _asym(y, w, lam, p, z0=(z if warm else None))
+        fits.append(np.log(np.sum((w * (y - z)) ** 2)))
+        pens.append(np.log(np.sum(np.diff(z, 2) ** 2)))
+    fits, pens = np.array(fits), np.array(pens)
+    step = llas[1] - llas[0]
+    v = np.sqrt(np.diff(fits) ** 2 + np.diff(pens) ** 2) / (np.log(10) * step)
+    mids = (llas[:-1] + llas[1:]) / 2
+    return v, mids
+
+
+def _check_vcurve(kernel, y, nodata, p, llas, lc=None):
+    from hdc.algo import ops
+    out, lopt = _run_smoother(kernel, y, nodata, p=p, llas=llas, lc=lc)
+    w = (y != nodata).astype("float64")
+    if w.sum() < 2:
+        return None
+    yy = np.where(w > 0, y, 0.0)
+    pp = None if kernel == "ws2doptv" else p
+    problems = []
+    ok_any = False
+    best = None
+    for warm in ((True,) if pp is None else (True, False)):
+        with np.errstate(all="ignore"):
+            v, mids = _vcurve(yy, w, llas, pp, warm)
+        if not np.all(np.isfinite(v)):
+            return None
+        k = np.argmin(np.abs(10.0 ** mids - lopt))
+        is_mid = abs(10.0 ** mids[k] - lopt) <= 1e-9 * lopt
+        minimal = v[k] <= v.min() * (1 + 1e-9) + 1e-12
+        best = (float(v[k]), float(v.min()), float(mids[k]), float(mids[np.argmin(v)]))
+        if is_mid and minimal:
+            ok_any = True
+    if not ok_any:
+        problems.append(f"lambda {lopt} is not a V-minimising grid midpoint: (V at reported, min V, log10 reported, log10 best) = {best}")
+    if pp is None:
+        band = ops.ws2dgu(y, lopt, nodata)
+    else:
+        band = ops.ws2dpgu(y, lopt, nodata, pp)
+    if np.max(np.abs(band.astype("float64"))) < 32000 and not np.array_equal(np.asarray(out), band.astype("float64")):
+        problems.append("band differs from the fixed-lambda smoother at the reported lambda")
+    return problems
+
+
+def c04_vcurve(kernel, data, nodata, p=None, l0=None, lstep=None, grid=None, lc=None, mode=None, name=None):
+    rng = np.random.default_rng(17)
+    valid = np.array([v is not None for v in data])
+    base = np.array([0 if v is None else float(v) for v in data])
+    p = float(p) if p is not None and 0 < float(p) < 1 else 0.9
+    if kernel == "whitsvc":
+        return _c04_accessor(data, nodata, p if mode != "nop" else None, mode, name)
+    grids = []
+    if kernel == "ws2doptvplc":
+        lcv = float("nan") if lc == "nan" else float(lc)
+        doc = np.arange(-2, 1.2, 0.2) if (lcv == lcv and lcv > 0.5) else np.arange(0, 3.2, 0.2)
+        grids = [doc]
+    else:
+        if l0 is not None and -4 <= float(l0) <= 4 and 0.05 <= float(lstep) <= 3:
+            grids.append(np.array([float(l0) + k * float(lstep) for k in range(int(grid))]))
+        grids += [np.arange(-2, 4.2, 0.2), np.arange(-2, 2.0, 1.0), np.arange(-1, 3.5, 0.5)]
+    series = [(base, valid)]
+    for L in (12, 24, 36, 36, 48):
+        t = np.arange(L)
+        s = np.round(3000 + 2500 * np.sin(2 * np.pi * t / 12.0) + rng.normal(0, 400, L))
+        v2 = np.array([valid[int(i * len(valid) / L)] for i in range(L)])
+        series.append((s, v2))
+    ps = [p, 0.5, 0.9] if kernel != "ws2doptv" else [None]
+    for (vals, vm) in series:
+        if np.any(vals[vm] == nodata):
+            continue
+        y = np.where(vm, vals, nodata).astype("float64")
+        for g in grids:
+            for pp in ps:
+                try:
+                    pr = _check_vcurve(kernel, y, nodata, pp, g.astype("float64"), lc=(float("nan") if lc == "nan" else lc))
+                except Exception as e:  # noqa
+                    return {"violates": True, "why": f"raised {type(e).__name__}: {e}"[:200]}
+                if pr:
+                    return {"violates": True, "why": pr, "y": y, "llas": g, "p": pp, "lc": lc}
+    return {"violates": False}
+
+
+def _c04_accessor(data, nodata, p, mode, name):
+    import xarray as xr
+    import hdc.algo  # noqa
+    from hdc.algo import ops
+    rng = np.random.default_rng(23)
+    T = 24
+    t = np.arange(T)
+    cube = np.round(3000 + 2500 * np.sin(2 * np.pi * t / 12.0)[:, None, None] + rng.normal(0, 400, (T, 2, 2))).astype("int16")
+    cube[3, 0, 0] = nodata
+    da = xr.DataArray(cube, dims=("time", "y", "x"), attrs={"nodata": nodata}, name=name)
+    srange = np.arange(-2, 4.2, 0.2)
+    problems = []
+    for pp in ([None] if mode == "nop" else [p, 0.5, 0.9, 0.3]):
+        kw = {}
+        if mode == "lc":
+            lc = xr.DataArray(np.array([[0.7, 0.3], [0.55, 0.45]]), dims=("y", "x"))
+            kw = {"lc": lc, "p": pp}
+        else:
+            kw = {"srange": srange}
+            if pp is not None:
+                kw["p"] = pp
+        ds = da.hdc.whit.whitsvc(nodata, **kw)
+        want = name or "band"
+        if set(ds.data_vars) != {want, "sgrid"}:
+            return {"violates": True, "why": f"dataset variables {list(ds.data_vars)}"}
+        if str(ds["sgrid"].dtype) != "float32":
+            return {"violates": True, "why": f"sgrid dtype {ds['sgrid'].dtype}"}
+        band = ds[want].transpose("time", "y", "x").values
+        for yy in range(2):
+            for xx in range(2):
+                series = cube[:, yy, xx].astype("float64")
+                sg = float(ds["sgrid"].values[yy, xx])
+                if mode == "lc":
+                    o, l = ops.ws2doptvplc(cube[:, yy, xx], nodata, pp, float(kw["lc"].values[yy, xx]))
+                elif pp is None:
+                    o, l = ops.ws2doptv(series, nodata, srange)
+                else:
+                    o, l = ops.ws2doptvp(series, nodata, pp, srange)
+                if not np.array_equal(band[:, yy, xx], o) or abs(sg - np.float32(np.log10(l))) > 1e-6:
+                    problems.append(f"pixel ({yy},{xx}) p={pp}: band/sgrid differ from the kernel selected by (lc, p)")
+    return {"violates": bool(problems), "why": problems[:3]}
